@@ -1,42 +1,79 @@
-import FstVerif.Model.Build
+import FstVerif.Proofs.EndToEnd
 /-
-C01 — build-then-enumerate round trip. (The end-to-end theorem is assembled
-from Proofs/Build.lean, Proofs/Codec.lean and Proofs/Stream.lean; this file
-holds the key-order facts and the empty-key step.)
+C01 — build-then-enumerate round trip. Statements here; the proof chain is
+Proofs/Build.lean (the incremental builder stores exactly the inserted map,
+for every cache geometry) → Proofs/Codec.lean (the byte reader decodes what
+the node encoder wrote) → Proofs/Stream.lean + Seek.lean (the explicit-stack
+stream enumerates the denotation) → Proofs/EndToEnd*.lean (glue, header,
+footer, checksum). The statements are about the BYTES of the complete file.
+The only hypotheses are the u64 limits of the format: type tag, values and key
+count < 2^64 and file length < 2^64.
 -/
-namespace Fst
+namespace Fst.Props
+open Fst Fst.E2E
 
-/-- the key order is irreflexive -/
-theorem C01_lexLt_irrefl : ∀ k : Key, lexLt k k = false
-  | [] => rfl
-  | a :: as => by simp [lexLt, C01_lexLt_irrefl as, UInt8.lt_irrefl]
+/-- MAP / RAW `insert`: for every cache geometry, every type tag, every strictly
+increasing key sequence (empty key, any length, any bytes, any fan-out) with
+any u64 values: the build succeeds, the file opens as version 3 with that type,
+`len()` is the number of keys, `verify()` succeeds, streaming everything yields
+exactly the inserted entries in order, and `get`/`contains_key` agree with the
+inserted map for every probe. -/
+theorem C01_map (rows cols ty : Nat) (hty : ty < 2^64) (kvs : KV) (hs : SortedKV kvs)
+    (hv : ∀ kv ∈ kvs, kv.2 < 2^64) (hn : kvs.length < 2^64) :
+    ∃ s bytes, insertAll (BState.new rows cols) kvs = .ok s ∧ s.fileBytes ty = .ok bytes ∧
+      (bytes.length < 2^64 →
+        ∃ m, fstNew (Src.ofList bytes) = .ok m ∧ m.version = 3 ∧ m.ty = ty ∧
+          m.len = kvs.length ∧ fstVerify m (Src.ofList bytes) = .ok () ∧
+          (∃ s0, streamNew (byteAccess 3 (Src.ofList bytes)) autAlways m.rootAddr
+              .unbounded .unbounded = some s0 ∧
+            ∃ N, ∀ fuel, N ≤ fuel →
+              streamCollect (byteAccess 3 (Src.ofList bytes)) autAlways m.rootAddr fuel s0 [] =
+                some (kvs.map fun kv => (kv.1, kv.2, ()))) ∧
+          (∀ key, fstGet (byteAccess 3 (Src.ofList bytes)) m.rootAddr key =
+            some (lookupKV kvs key)) ∧
+          (∀ key, fstContains (byteAccess 3 (Src.ofList bytes)) m.rootAddr key =
+            some (kvs.any fun kv => kv.1 == key))) :=
+  e2e_map rows cols ty hty kvs hs hv hn
 
-/-- and asymmetric -/
-theorem C01_lexLt_asymm : ∀ a b : Key, lexLt a b = true → lexLt b a = false
-  | [], [], h => by simp [lexLt] at h
-  | [], _ :: _, _ => rfl
-  | _ :: _, [], h => by simp [lexLt] at h
-  | x :: xs, y :: ys, h => by
-    simp only [lexLt, Bool.or_eq_true, decide_eq_true_eq, Bool.and_eq_true, beq_iff_eq] at h
-    simp only [lexLt, Bool.or_eq_false_iff, decide_eq_false_iff_not, Bool.and_eq_false_iff]
-    cases h with
-    | inl h => exact ⟨fun h2 => absurd (UInt8.lt_trans h h2) (UInt8.lt_irrefl _), Or.inl (by
-        simp only [beq_eq_false_iff_ne, ne_eq]; intro e; subst e; exact absurd h (UInt8.lt_irrefl _))⟩
-    | inr h =>
-      obtain ⟨e, h⟩ := h
-      subst e
-      exact ⟨UInt8.lt_irrefl _, Or.inr (C01_lexLt_asymm xs ys h)⟩
+/-- SET / RAW `add`: non-decreasing keys, repeats collapse: the file holds the distinct keys (value 0) -/
+theorem C01_set (rows cols ty : Nat) (hty : ty < 2^64) (ks : List Key) (hs : SortedKeysLe ks)
+    (hn : (dedupKeys ks).length < 2^64) :
+    ∃ s bytes, addAll (BState.new rows cols) ks = .ok s ∧ s.fileBytes ty = .ok bytes ∧
+      (bytes.length < 2^64 →
+        ∃ m, fstNew (Src.ofList bytes) = .ok m ∧ m.version = 3 ∧ m.ty = ty ∧
+          m.len = (dedupKeys ks).length ∧ fstVerify m (Src.ofList bytes) = .ok () ∧
+          (∃ s0, streamNew (byteAccess 3 (Src.ofList bytes)) autAlways m.rootAddr
+              .unbounded .unbounded = some s0 ∧
+            ∃ N, ∀ fuel, N ≤ fuel →
+              streamCollect (byteAccess 3 (Src.ofList bytes)) autAlways m.rootAddr fuel s0 [] =
+                some ((zeroKV (dedupKeys ks)).map fun kv => (kv.1, kv.2, ()))) ∧
+          (∀ key, fstGet (byteAccess 3 (Src.ofList bytes)) m.rootAddr key =
+            some (lookupKV (zeroKV (dedupKeys ks)) key)) ∧
+          (∀ key, fstContains (byteAccess 3 (Src.ofList bytes)) m.rootAddr key =
+            some ((zeroKV (dedupKeys ks)).any fun kv => kv.1 == key))) :=
+  e2e_set rows cols ty hty ks hs hn
 
-/-- the empty key is smaller than every other key (so it can only be inserted first) -/
-theorem C01_empty_least (k : Key) (h : k ≠ []) : lexLt [] k = true := by
-  cases k with
-  | nil => exact absurd rfl h
-  | cons _ _ => rfl
+/-- on every state reachable by accepted calls no call panics and `finish` succeeds -/
+theorem C01_no_panic {s : BState} (hr : Reachable s) :
+    (∀ k v tag, s.insert k v ≠ .error (.panic tag)) ∧ (∀ k tag, s.add k ≠ .error (.panic tag)) ∧
+    (∃ s' root, s.finish = .ok (s', root)) ∧ (∀ ty, ∃ bytes, s.fileBytes ty = .ok bytes) := by
+  obtain ⟨_, _, h3, h4, h5, h6⟩ := e2e_no_panic_history hr
+  exact ⟨h3, h4, h5, h6⟩
 
-/-- inserting the empty key first makes the root final with that value and counts one key -/
-theorem C01_empty_key (rows cols v : Nat) :
-    ∃ s, (BState.new rows cols).insert [] v = .ok s ∧ s.len = 1 ∧
-      s.stack = [⟨⟨true, v, []⟩, none⟩] ∧ s.out = [] := by
-  refine ⟨_, rfl, rfl, rfl, rfl⟩
+/-- no arithmetic of the builder exceeds the inserted values: every output stored in an
+emitted node is bounded by the largest inserted value (no u64 overflow or underflow) -/
+theorem C01_value_bound (rows cols : Nat) (kvs : KV) (h : SortedKV kvs) (M : Nat)
+    (hM : ∀ kv ∈ kvs, kv.2 ≤ M) :
+    ∃ s s' root, insertAll (BState.new rows cols) kvs = .ok s ∧ s.finish = .ok (s', root) ∧
+      ∀ e ∈ s'.out, e.node.fout ≤ M ∧ ∀ t ∈ e.node.trans, t.out ≤ M :=
+  build_bound rows cols kvs h M hM
 
-end Fst
+/-- the key order is a strict order -/
+theorem C01_lexLt_irrefl (k : Key) : lexLt k k = false := lexLt_irrefl k
+theorem C01_lexLt_trans (a b c : Key) (h1 : lexLt a b = true) (h2 : lexLt b c = true) :
+    lexLt a c = true := lexLt_trans h1 h2
+
+/-- non-vacuity: the 4-key example (empty key, shared prefix), geometry 1×1, evaluated by the kernel -/
+example : SortedKV exKvs ∧ (∀ kv ∈ exKvs, kv.2 < 2^64) := ⟨by simp [exKvs, SortedKV, lexLt], by decide⟩
+
+end Fst.Props
